@@ -179,29 +179,40 @@ fn build(r: Raw) -> ExtractCase {
 }
 
 pub fn strategy(tier: Tier) -> BoxedStrategy<ExtractCase> {
-    let file_len = match tier {
-        // quick: mostly <= 64 KiB, a good share > 128 KiB so that spans exceed the I/O buffer
+    let cut = || (any::<u16>(), 0u8..8);
+    let any_cuts = move || {
+        prop_oneof![
+            4 => proptest::collection::vec(cut(), 0..=5),
+            3 => proptest::collection::vec(cut(), 2..=14),
+            1 => proptest::collection::vec(cut(), 10..=40),
+        ]
+    };
+    // few cuts, the first ones close to the front: long spans that move by a short distance
+    let front_cuts = move || {
+        (proptest::collection::vec((0u16..6_000, 0u8..8), 1..=3), proptest::collection::vec(cut(), 0..=3)).prop_map(|(mut a, b)| {
+            a.extend(b);
+            a
+        })
+    };
+    let big = move |lens: std::ops::RangeInclusive<u64>| prop_oneof![1 => (lens.clone(), any_cuts()), 1 => (lens, front_cuts())];
+    // quick: mostly <= 64 KiB, a good share > 128 KiB so that spans exceed the I/O buffer
+    let file_and_cuts = match tier {
         Tier::Quick => prop_oneof![
-            1 => 0u64..=64,
-            8 => 0u64..=65_536,
-            1 => 65_537u64..=140_000,
-            4 => 131_073u64..=MAX_FILE,
+            1 => (0u64..=64, any_cuts()),
+            8 => (0u64..=65_536, any_cuts()),
+            1 => (65_537u64..=140_000, any_cuts()),
+            5 => big(131_073u64..=MAX_FILE),
         ]
         .boxed(),
         Tier::Thorough => prop_oneof![
-            1 => 0u64..=64,
-            4 => 0u64..=65_536,
-            1 => 65_537u64..=140_000,
-            4 => 131_073u64..=MAX_FILE,
-            1 => Just(MAX_FILE),
+            1 => (0u64..=64, any_cuts()),
+            4 => (0u64..=65_536, any_cuts()),
+            1 => (65_537u64..=140_000, any_cuts()),
+            5 => big(131_073u64..=MAX_FILE),
+            1 => big(MAX_FILE..=MAX_FILE),
         ]
         .boxed(),
     };
-    let cuts = prop_oneof![
-        4 => proptest::collection::vec((any::<u16>(), 0u8..8), 0..=5),
-        3 => proptest::collection::vec((any::<u16>(), 0u8..8), 2..=14),
-        1 => proptest::collection::vec((any::<u16>(), 0u8..8), 10..=40),
-    ];
     let zeros = prop_oneof![
         5 => Just(Vec::new()),
         2 => proptest::collection::vec((any::<u16>(), any::<bool>()), 1..=3),
@@ -211,9 +222,8 @@ pub fn strategy(tier: Tier) -> BoxedStrategy<ExtractCase> {
         1 => (any::<u16>(), 0u8..5, any::<u16>()).prop_map(Some),
     ];
     (
-        file_len,
+        file_and_cuts,
         any::<u64>(),
-        cuts,
         0u8..8,
         zeros,
         prop_oneof![2 => Just(0u8), 1 => Just(1u8), 3 => Just(2u8)],
@@ -222,7 +232,7 @@ pub fn strategy(tier: Tier) -> BoxedStrategy<ExtractCase> {
         prop_oneof![4 => 0u16..37_449, 1 => any::<u16>()],
         overlap,
     )
-        .prop_map(|(file_len, content_seed, cuts, bounds, zeros, order, order_seed, budget_ix, overlap)| {
+        .prop_map(|((file_len, cuts), content_seed, bounds, zeros, order, order_seed, budget_ix, overlap)| {
             build(Raw { file_len, content_seed, cuts, bounds, zeros, order, order_seed, budget_ix, overlap })
         })
         .boxed()
